@@ -27,7 +27,7 @@ FILEMAP = {
     "ztypes.go": ["C16", "C08", "C01"],
     "zmsg.go": ["C01", "C02", "C04", "C03"],
     "svcb.go": ["C01", "C02", "C05", "C16", "C20", "C08"],
-    "edns.go": ["C01", "C02", "C16", "C08"],
+    "edns.go": ["C01", "C02", "C16", "C08", "C03"],
     "privaterr.go": ["C01", "C02", "C16"],
     "dns.go": ["C01", "C05"],
     "scan_rr.go": ["C05", "C06"],
